@@ -21,6 +21,10 @@ pub enum Case {
     /// low-level run whose callback answers XOut (dense output on demand): inside every step the handed interpolant is
     /// the one of the undisturbed run
     XOut(crate::xoutrel::XCase),
+    /// low-level DOPRI5 / DOP853 run whose stiffness test runs on every `cadence`-th accepted step (solve_ivp's fixed
+    /// cadence of 1000 puts that code path out of reach of short runs): the interpolant of every step, the tested ones
+    /// included, is as accurate as the step ends
+    Stiff { prob: ProbSpec, span: Span, dop853: bool, rtol: f64, atol_rel: f64, cadence: usize, thetas: Vec<f64> },
 }
 
 fn interp_order(m: Meth) -> usize {
@@ -230,8 +234,67 @@ fn check_full(spec: &ProbSpec, sp: &Span, m: Meth, rtol: f64, atol_rel: f64, rk4
     Outcome::pass(format!("{}:full", m.name()), probed >= 3, json!({"steps": grid.len() - 1, "steps_probed": probed, "steps_skipped_h_rate_gt_1": skipped, "interior_err_over_allowed": worst, "bdf_interior_over_neighbours_plus_tol": worst_bdf}))
 }
 
+fn check_stiff(spec: &ProbSpec, sp: &Span, dop853: bool, rtol: f64, atol_rel: f64, cadence: usize, thetas: &[f64]) -> Outcome {
+    let m = if dop853 { Meth::DOP853 } else { Meth::DOPRI5 };
+    let d = sp.dir();
+    let prob = Prob::new(spec, sp.x0, sp.xend);
+    let none: Vec<EvSpec> = vec![];
+    let mut instr = Instr::new(&prob, &none);
+    instr.dir = d;
+    let atol = rtol * atol_rel;
+    let lo = LowOpts { stiff_test: Some(cadence), dense: Some(true), ..Default::default() };
+    let mut so = RecSolOut::new(vec![]);
+    so.thetas = thetas.to_vec();
+    let r = match guarded(|| solve_low(m, &instr, sp.x0, sp.xend, &prob.y0(), &Tol::S(rtol), &Tol::S(atol), &lo, &mut so)) {
+        Ok(Ok(r)) => r,
+        _ => return Outcome::triv("run-failed"),
+    };
+    // a run that gives up as "probably stiff" still handed over valid steps up to there
+    if so.recs.len() < 3 {
+        return Outcome::triv("fewer-than-2-steps");
+    }
+    let ymax = so.recs.iter().fold(0.0f64, |mm, r| mm.max(inf_norm(&r.y)));
+    let tolscale = atol + rtol * ymax;
+    let kappa = prob.kappa();
+    let rate = prob.rate_t();
+    let nacc = (so.recs.len() - 1) as f64;
+    let eend: Vec<f64> = so.recs.iter().map(|r| max_abs_diff(&r.y, &prob.exact(r.x))).collect();
+    let mut worst: f64 = 0.0;
+    let mut probed = 0usize;
+    let mut tested = 0usize;
+    for i in 1..so.recs.len() {
+        let rec = &so.recs[i];
+        let h = rec.x - rec.xold;
+        if rate * h.abs() > 1.0 || !rec.has_interp {
+            continue;
+        }
+        probed += 1;
+        if i % cadence == 0 {
+            tested += 1;
+        }
+        let floor = 64.0 * f64::EPSILON * (1.0 + ymax) * nacc.sqrt() + 8.0 * ulp(sp.x0.abs().max(sp.xend.abs())) * rate * ymax;
+        let allow = 10.0 * eend[i - 1].max(eend[i]) + crate::props::c01::C_BOUND * kappa * nacc * tolscale + floor;
+        for (th, v) in thetas.iter().zip(&rec.at_theta) {
+            let t = rec.xold + th * h;
+            let e = max_abs_diff(v, &prob.exact(t));
+            worst = worst.max(e / allow);
+            if e > allow {
+                return Outcome::viol(format!(
+                    "{} (stiffness test every {} accepted steps): the interpolant of step {} of {} at t={:e} (theta={:.3}, h={:e}) is off by {:e} while the step ends are accurate to {:e} / {:e} (allowed {:e}; rtol={:e})",
+                    m.name(), cadence, i, so.recs.len() - 1, t, th, h, e, eend[i - 1], eend[i], allow, rtol
+                ));
+            }
+        }
+    }
+    if probed == 0 {
+        return Outcome::triv("all-steps-outside-asymptotic-range");
+    }
+    Outcome::pass(format!("{}:stiff-cadence:{}", m.name(), status_name(r.status)), tested >= 1, json!({"steps": so.recs.len() - 1, "steps_probed": probed, "steps_with_stiffness_test": tested, "interior_err_over_allowed": worst}))
+}
+
 pub fn check(c: &Case) -> Outcome {
     match c {
+        Case::Stiff { prob, span, dop853, rtol, atol_rel, cadence, thetas } => check_stiff(prob, span, *dop853, *rtol, *atol_rel, *cadence, thetas),
         Case::Slope { prob, x0, back, method } => check_slope(prob, *x0, *back, *method),
         Case::Full { prob, span, method, rtol, atol_rel, rk4_steps, thetas, analytic_jac, terminal_at } => check_full(prob, span, *method, *rtol, *atol_rel, *rk4_steps, thetas, *analytic_jac, *terminal_at),
         Case::XOut(x) => crate::xoutrel::check(x, crate::xoutrel::Aspect::Inside),
@@ -248,6 +311,8 @@ pub fn strategy() -> BoxedStrategy<Case> {
         2 => (prob_spec(5, 0.5, 8.0), prop_oneof![12 => span_mid().boxed(), 1 => span_tiny().boxed()], any_method(), log10(-9.0, -3.0), log10(-3.0, 0.0), fr(20.3, 200.9), proptest::collection::vec(fr(0.02, 0.98), 1..5), any::<bool>(), proptest::option::weighted(0.2, fr(0.2, 0.95)))
             .prop_map(|(prob, span, method, rtol, atol_rel, rk4_steps, thetas, analytic_jac, terminal_at)| Case::Full { prob, span, method, rtol, atol_rel, rk4_steps, thetas, analytic_jac, terminal_at }),
         1 => crate::xoutrel::strategy().prop_map(Case::XOut),
+        1 => (prob_spec(5, 0.5, 8.0), span_mid(), any::<bool>(), log10(-9.0, -3.0), log10(-3.0, 0.0), 1usize..6, proptest::collection::vec(fr(0.02, 0.98), 1..5))
+            .prop_map(|(prob, span, dop853, rtol, atol_rel, cadence, thetas)| Case::Stiff { prob, span, dop853, rtol, atol_rel, cadence, thetas }),
     ]
     .boxed()
 }
@@ -260,7 +325,7 @@ pub fn run(ctx: &Ctx, known: &[Known]) -> Report {
     let stats = run_generated(ctx, "C07", "gen", &strategy, &check, cases, known);
     Report {
         id: "C07".into(),
-        rule: "two kinds of cases: (1) one step from exact data of an autonomous linear closed-form problem with the step interpolant probed at 19 interior thetas, step refined five times (factor 2, sqrt 2 for DOPRI5/DOP853), slope of the max-over-theta error fitted on the three smallest usable steps (RK4, RK23, DOPRI5, DOP853, Radau with fully converged Newton; both signs of h); (2) full solve_ivp runs of all six methods on general (non-autonomous, nonlinear, mixed) closed-form problems with dense output: Solution::sol at 1..4 generated interior positions of every accepted step against the exact solution (steps with h*rate > 1 skipped), allowed 10 x the larger error of the two neighbouring step ends + the C01 bound 100*kappa*naccpt*tolscale (RK4: + |y|(rate*h)^4) + rounding floor. RK4 uses a step that does not divide the span; (3) low-level runs whose SolOut callback answers ControlFlag::XOut (arbitrary abscissae at arbitrary callbacks, or equidistant printing), with the solver's dense_output flag default/true/false: every interpolant handed over is, at three interior thetas, bit-identical to the interpolant of the same step in the run whose callback answers Continue. Non-trivial = a verdict from >= 3 usable refinements, or a run with >= 3 accepted steps. Distinct = distinct canonical JSON.".into(),
+        rule: "two kinds of cases: (1) one step from exact data of an autonomous linear closed-form problem with the step interpolant probed at 19 interior thetas, step refined five times (factor 2, sqrt 2 for DOPRI5/DOP853), slope of the max-over-theta error fitted on the three smallest usable steps (RK4, RK23, DOPRI5, DOP853, Radau with fully converged Newton; both signs of h); (2) full solve_ivp runs of all six methods on general (non-autonomous, nonlinear, mixed) closed-form problems with dense output: Solution::sol at 1..4 generated interior positions of every accepted step against the exact solution (steps with h*rate > 1 skipped), allowed 10 x the larger error of the two neighbouring step ends + the C01 bound 100*kappa*naccpt*tolscale (RK4: + |y|(rate*h)^4) + rounding floor. RK4 uses a step that does not divide the span; (3) low-level runs whose SolOut callback answers ControlFlag::XOut (arbitrary abscissae at arbitrary callbacks, or equidistant printing), with the solver's dense_output flag default/true/false: every interpolant handed over is, at three interior thetas, bit-identical to the interpolant of the same step in the run whose callback answers Continue. (4) low-level DOPRI5 / DOP853 runs with the stiffness test on every 1st..5th accepted step (solve_ivp fixes the cadence at 1000, so the code that runs between the step update and the dense-output preparation is otherwise reached only by runs of >= 1000 steps): the interpolant handed to the callback at 1..4 interior thetas of every step against the exact solution, same allowance as (2). Non-trivial = a verdict from >= 3 usable refinements, or a run with >= 3 accepted steps. Distinct = distinct canonical JSON.".into(),
         assumptions: vec!["slope thresholds RK4/RK23/Radau 3.5, DOPRI5 4.3, DOP853 6.5".into(), "the interior allowance is relative to the neighbouring step-end errors, so algorithm-inherent step-end inaccuracies (C01 finding K1) do not raise an alarm here".into()],
         min_nontrivial_frac: 0.5,
         stats,
